@@ -1,9 +1,12 @@
 (** C03 — everything acknowledged is on the device.  In the model directories have no in-memory copy at all
     (they are re-read from the device), so "the directory half" holds by construction of the model and is what the
     tie tests on the implementation.  Proved here: a FAT flush writes the serialised in-memory table to EVERY copy,
-    and that serialisation decodes back to the table (so a remount sees the chains the live object sees). *)
-From Coq Require Import ZArith List Bool.
-From PyFatV Require Import Base.Bytes Base.PyEnv Gen.Pure Model.Codec Model.Dir Model.FS Proofs.Session Proofs.FatCodec.
+    and that serialisation decodes back to the table (so a remount sees the chains the live object sees); the
+    block-sparse device is a flat byte array (a read returns what the last covering write put there, writes change
+    nothing else); and what [write_dir] puts on the device [read_dir] — which is all a later mount has — reads back,
+    entry for entry, for the fixed root region and for cluster-chain directories. *)
+From Coq Require Import ZArith List Bool Lia FMapPositive.
+From PyFatV Require Import Base.Bytes Base.PyEnv Gen.Pure Model.Codec Model.Dir Model.FS Proofs.Session Proofs.FatCodec Proofs.Device Proofs.DirCodec Proofs.DirState Proofs.Names.
 Import ListNotations.
 Open Scope Z_scope.
 
@@ -17,4 +20,80 @@ Theorem C03_fat_decodes_back :
   (forall l hi, ent_ok 28 l -> hi_ok hi -> length hi = length l -> parse32 (pack32 l hi) = l /\ parse32hi (pack32 l hi) = hi).
 Proof. exact (conj parse12_pack12 (conj parse16_pack16 parse32_pack32)). Qed.
 Print Assumptions C03_fat_decodes_back.
+Theorem C03_device_read_after_write : forall d sz off data, dev_ok d -> 0 <= off -> off + lenZ data <= sz ->
+  dread (dwrite d off data) sz off (lenZ data) = data.
+Proof. exact read_after_write. Qed.
+Print Assumptions C03_device_read_after_write.
+Theorem C03_device_frame : forall d sz off data off' len, dev_ok d -> 0 <= off -> 0 <= off' ->
+  off' + len <= off \/ off + lenZ data <= off' -> dread (dwrite d off data) sz off' len = dread d sz off' len.
+Proof. exact read_elsewhere. Qed.
+Print Assumptions C03_device_frame.
+Theorem C03_root_dir_persists : forall s es s',
+  dev_ok (s_dev s) -> Forall entry_ok es -> 0 <= root_addr s -> 0 <= BPB_RootEntCnt (s_h s) ->
+  BPB_RootEntCnt (s_h s) * 32 = root_dir_sectors (s_p s) * bps s ->
+  root_addr s + root_dir_sectors (s_p s) * bps s <= s_dsize s ->
+  write_dir s (-1) es = Ok s' -> read_dir s' (-1) = Ok (map canon es).
+Proof. exact root_dir_roundtrip. Qed.
+Print Assumptions C03_root_dir_persists.
+(** hypotheses 8-10 speak about the final state: the directory's chain is intact, inside the device and has room;
+    that [write_dir]'s own allocation always establishes them is not proved (C03_remount below). *)
+Theorem C03_chain_dir_persists : forall s c es s' cs,
+  dev_ok (s_dev s) -> geom_ok s -> 0 <= s_hint s -> 2 <= Gen.MIN_DATA_CLUSTER (ft s) -> Forall entry_ok es -> c <> -1 ->
+  write_dir s c es = Ok s' ->
+  chain_all s' c = Ok cs -> Forall (inside s) cs -> lenZ (ser_dir es) <= lenZ cs * bpc s ->
+  read_dir s' c = Ok (map canon es).
+Proof. exact chain_dir_roundtrip. Qed.
+Print Assumptions C03_chain_dir_persists.
 (* C03_remount (not proved): for all histories and quiescent states, tree_of (mount (image s)) = tree_of s. *)
+
+(** the hypotheses are satisfiable: a 4113-sector FAT12 volume (64 root entries, 512-byte clusters), an entry with a
+    14-unit long name, written to the root region and to the one-cluster directory at cluster 2, read back *)
+Definition ex_hdr : hdr := mkHdr [235;60;144] [] 512 1 1 2 64 4113 248 12 0 0 0 0 0 0 0 0 0 0 [] 0 0 0 0 [] [] false.
+Definition ex_st : st :=
+  mkSt ex_hdr (set_bytes_per_cluster (Gen.parse_header_geometry pf_init ex_hdr) 512) false false ([4088; 4095; 4095] ++ repeat 0 100) [] 0
+       (PositiveMap.empty _) (4113 * 512) [] [].
+Definition ex_name : list Z := [65;66;67;32;32;32;32;32;84;88;84].
+Definition ex_units : list Z := [104;105;32;116;104;101;114;101;46;116;120;116;49;50].
+Definition ex_ent : dirent := mkDirent ex_name 32 0 0 100 200 300 0 400 500 7 1234 (Some (make_lfn ex_units ex_name)).
+Lemma ex_ent_ok : entry_ok ex_ent.
+Proof.
+  split.
+  - unfold sentry_ok, short_ok. cbn. repeat split; try lia; discriminate.
+  - cbn [d_lfn ex_ent d_name]. apply make_lfn_ok; [|vm_compute; split; discriminate].
+    unfold ex_units. repeat constructor; unfold Names.unit_ok; lia.
+Qed.
+Definition ex_after (loc:Z) : st := match write_dir ex_st loc [ex_ent; ex_ent] with Ok s => s | Err _ => ex_st end.
+Lemma ex_entries_ok : Forall entry_ok [ex_ent; ex_ent].
+Proof. constructor; [apply ex_ent_ok|constructor; [apply ex_ent_ok|constructor]]. Qed.
+Definition fixed_root : Z := -1.
+Example C03_root_example :
+  write_dir ex_st fixed_root [ex_ent; ex_ent] = Ok (ex_after fixed_root) /\
+  read_dir (ex_after fixed_root) fixed_root = Ok (map canon [ex_ent; ex_ent]) /\
+  dev_ok (s_dev ex_st) /\ Forall entry_ok [ex_ent; ex_ent] /\ 0 <= root_addr ex_st /\ 0 <= BPB_RootEntCnt (s_h ex_st) /\
+  BPB_RootEntCnt (s_h ex_st) * 32 = root_dir_sectors (s_p ex_st) * bps ex_st /\
+  root_addr ex_st + root_dir_sectors (s_p ex_st) * bps ex_st <= s_dsize ex_st.
+Proof.
+  assert (E : write_dir ex_st fixed_root [ex_ent; ex_ent] = Ok (ex_after fixed_root)) by (vm_compute; reflexivity).
+  assert (H3 : 0 <= root_addr ex_st) by (vm_compute; discriminate).
+  assert (H3' : 0 <= BPB_RootEntCnt (s_h ex_st)) by (vm_compute; discriminate).
+  assert (H4 : BPB_RootEntCnt (s_h ex_st) * 32 = root_dir_sectors (s_p ex_st) * bps ex_st) by (vm_compute; reflexivity).
+  assert (H5 : root_addr ex_st + root_dir_sectors (s_p ex_st) * bps ex_st <= s_dsize ex_st) by (vm_compute; discriminate).
+  split; [exact E|]. split; [|auto 10 using dev_ok_empty, ex_entries_ok].
+  exact (root_dir_roundtrip ex_st [ex_ent; ex_ent] (ex_after fixed_root) dev_ok_empty ex_entries_ok H3 H3' H4 H5 E).
+Qed.
+Example C03_chain_example :
+  write_dir ex_st 2 [ex_ent; ex_ent] = Ok (ex_after 2) /\ read_dir (ex_after 2) 2 = Ok (map canon [ex_ent; ex_ent]) /\
+  chain_all (ex_after 2) 2 = Ok [2] /\ geom_ok ex_st /\ Forall (inside ex_st) [2] /\
+  lenZ (ser_dir [ex_ent; ex_ent]) <= lenZ [2] * bpc ex_st.
+Proof.
+  assert (E : write_dir ex_st 2 [ex_ent; ex_ent] = Ok (ex_after 2)) by (vm_compute; reflexivity).
+  assert (Hc : chain_all (ex_after 2) 2 = Ok [2]) by (vm_compute; reflexivity).
+  assert (G : geom_ok ex_st) by (vm_compute; repeat split; try reflexivity; discriminate).
+  assert (I : Forall (inside ex_st) [2]) by (constructor; [vm_compute; split; discriminate|constructor]).
+  assert (R : lenZ (ser_dir [ex_ent; ex_ent]) <= lenZ [2] * bpc ex_st) by (vm_compute; discriminate).
+  assert (Hh : 0 <= s_hint ex_st) by (vm_compute; discriminate).
+  assert (Hm : 2 <= Gen.MIN_DATA_CLUSTER (ft ex_st)) by (vm_compute; discriminate).
+  assert (Hn : 2 <> -1) by discriminate.
+  split; [exact E|]. split; [|auto 10].
+  exact (chain_dir_roundtrip ex_st 2 [ex_ent; ex_ent] (ex_after 2) [2] dev_ok_empty G Hh Hm ex_entries_ok Hn E Hc I R).
+Qed.
